@@ -170,11 +170,18 @@ async fn fn_name(
                 continue;
             }
 
+            let leaf_offset = leaf_dir_offset.checked_add(entry.offset).ok_or_else(|| {
+                std::io::Error::new(
+                    std::io::ErrorKind::InvalidData,
+                    "Offset of a leaf directory overflows.",
+                )
+            })?;
+
             add_await([fn_name(
                 reader,
                 tiles,
                 compression,
-                (leaf_dir_offset + entry.offset, u64::from(entry.length)),
+                (leaf_offset, u64::from(entry.length)),
                 leaf_dir_offset,
                 filter_range,
             )])?;
